@@ -199,6 +199,8 @@ func compact(v interface{}) string {
 
 func esc(s string) string { return url.QueryEscape(s) }
 
+func urlUnescape(s string) (string, error) { return url.QueryUnescape(s) }
+
 func fmtFloat(f float64) string { return strconv.FormatFloat(f, 'g', -1, 64) }
 
 // tok renders a JSON value as a typed token according to the field's abstract type.
@@ -242,6 +244,15 @@ func tok(f *common.C15Field, v interface{}) string {
 		}
 	}
 	return "json:" + esc(compact(v))
+}
+
+// effOf: the Config field of a row, for the rows whose Config value is a plain scalar (a parse/print row holds
+// a multiaddress, a peer ID, a key ...: its value is observed through the saved key only).
+func rowEff(c comp, f *common.C15Field) string {
+	if f.Codec != "" || strings.HasPrefix(f.Load, "codec") || f.Load == "peerListStar" {
+		return "-"
+	}
+	return effTok(c, f.Dest)
 }
 
 // effTok reads the Config field named by the translator's Dest path with reflection.
@@ -375,7 +386,7 @@ func after(s *section, c comp, f *common.C15Field, o *obs) {
 		o.valid = 1
 	}
 	if f != nil {
-		o.eff = effTok(c, f.Dest)
+		o.eff = rowEff(c, f)
 	}
 	j1, r := toJSON(c)
 	if r != "ok" {
@@ -397,7 +408,7 @@ func after(s *section, c comp, f *common.C15Field, o *obs) {
 			o.fix = 1
 		}
 		if f != nil {
-			o.eff2 = effTok(c2, f.Dest)
+			o.eff2 = rowEff(c2, f)
 		}
 	}
 	if d, ok := c.(displayer); ok {
@@ -496,7 +507,7 @@ func loadFile(raw []byte, s *section, f *common.C15Field, at string) obs {
 	if s != nil {
 		c = comps[s.def.name]
 		if f != nil {
-			o.eff = effTok(c, f.Dest)
+			o.eff = rowEff(c, f)
 		}
 	}
 	var j1 []byte
@@ -538,7 +549,7 @@ func loadFile(raw []byte, s *section, f *common.C15Field, at string) obs {
 			o.fix = 1
 		}
 		if s != nil && f != nil {
-			o.eff2 = effTok(comps2[s.def.name], f.Dest)
+			o.eff2 = rowEff(comps2[s.def.name], f)
 		}
 	}
 	var disp []byte
@@ -808,7 +819,7 @@ func altValue(s *section, f *common.C15Field) string {
 	if guard(func() error { return def.LoadJSON(s.baseB) }) != "ok" {
 		return ""
 	}
-	deff := effTok(def, f.Dest)
+	deff := rowEff(def, f)
 	dgot := tok(f, getPath(s.base, f.Path))
 	for _, p := range pool(f) {
 		if p.vc != "wf" {
@@ -824,7 +835,7 @@ func altValue(s *section, f *common.C15Field) string {
 		if guard(func() error { return c.LoadJSON([]byte(compact(m))) }) != "ok" {
 			continue
 		}
-		e := effTok(c, f.Dest)
+		e := rowEff(c, f)
 		if e != "-" && e != deff {
 			altCache[key] = p.json
 			return p.json
@@ -897,7 +908,7 @@ func runSet(c setCase) {
 	def := s.def.mk()
 	deff := "-"
 	if guard(func() error { return def.LoadJSON(s.baseB) }) == "ok" {
-		deff = effTok(def, f.Dest)
+		deff = rowEff(def, f)
 	}
 	cur := deff
 	m := clone(s.base).(map[string]interface{})
@@ -925,7 +936,7 @@ func runSet(c setCase) {
 			if guard(func() error { return obj.LoadJSON([]byte(compact(am))) }) != "ok" {
 				return
 			}
-			cur = effTok(obj, f.Dest)
+			cur = rowEff(obj, f)
 		}
 		o.res = guard(func() error { return obj.LoadJSON(raw) })
 		o.eff, o.eff2, o.gotTok = "-", "-", "-"
@@ -958,7 +969,7 @@ func runSet(c setCase) {
 		if guard(func() error { return obj.LoadJSON([]byte(compact(m))) }) != "ok" {
 			return
 		}
-		cur = effTok(obj, f.Dest)
+		cur = rowEff(obj, f)
 		name := f.EnvName(s.schema.EnvPrefix)
 		os.Setenv(name, ev)
 		o.res = guard(obj.ApplyEnvVars)
@@ -1339,6 +1350,10 @@ func boundary(suite string, tier string) {
 		srcBoundary(tier)
 		return
 	}
+	if suite == "val" {
+		valBoundary(tier)
+		return
+	}
 	fields := allFields()
 	switch suite {
 	case "sweep":
@@ -1385,6 +1400,8 @@ func boundary(suite string, tier string) {
 		}
 	case "file":
 		runDefaultFile()
+		runMgr("plain")
+		runMgr("dup")
 		baseCases("basefile")
 		for _, fr := range fields {
 			for _, p := range pool(fr.f) {
@@ -1454,6 +1471,10 @@ func random(suite string, k int) {
 		srcRandom(k)
 		return
 	}
+	if suite == "val" {
+		valRandom(k)
+		return
+	}
 	fields := allFields()
 	r := common.NewRng(common.Seed()).Fork(uint64(k))
 	if len(fields) == 0 {
@@ -1511,6 +1532,10 @@ func replay(line string) {
 		return
 	}
 	switch w[0] {
+	case "mgr":
+		runMgr(w[1])
+	case "val":
+		replayVal(w)
 	case "src":
 		if ops := kv(w, "ops"); ops != "" {
 			runSrc(strings.Split(ops, ","))
